@@ -64,8 +64,8 @@ def flag_index(m):
         f = prog.lib_fn(T.TOK + name)
         if f is None:
             continue
-        fs = terms.Engine(prog, inline=True, hooks=__import__("evalnode").Hooks([T.TOK], opaque_names=[T.TOK + "try_tokenize_recursive"])).summary(f)
-        cc = [x for x in fs.all_sites() if x.kind == "call" and x.is_call_to("try_tokenize_recursive")]
+        fs = terms.Engine(prog, inline=True, hooks=__import__("evalnode").Hooks([T.TOK], opaque_names=[m.fn.path])).summary(f)
+        cc = [x for x in fs.all_sites() if x.kind == "call" and isinstance(x.callee, str) and prog.resolve_local(f.crate, x.callee) is m.fn]
         if len(cc) == 1:
             calls[val] = cc[0].args
     fi = ti = None
@@ -293,7 +293,7 @@ def check_plain_mode(prog, rep, rule):
     eng = terms.Engine(prog, inline=False)
     s = eng.summary(m.fn)
     flag, top = ("param", m.pn[fi]), (("param", m.pn[ti]) if ti is not None else None)
-    recs = [x for x in m.summ.all_sites() if x.kind == "call" and x.is_call_to("try_tokenize_recursive")]
+    recs = [x for x in m.summ.all_sites() if x.kind == "call" and isinstance(x.callee, str) and prog.resolve_local(m.fn.crate, x.callee) is m.fn]
     for x in recs:
         good = x.args[fi] == flag and (ti is None or x.args[ti] == m.flag_terms.get((ti, False), ("lit", False)))
         rep.check(good, rule, f"tokenizer/recursion@{x.ordinal}", x.where(), "nested group: same mode, not top level",
@@ -305,8 +305,8 @@ def check_plain_mode(prog, rep, rule):
         if f is None:
             rep.unresolved(rule, name, "", "entry not found")
             continue
-        fs = terms.Engine(prog, inline=True, hooks=__import__("evalnode").Hooks([T.TOK], opaque_names=[T.TOK + "try_tokenize_recursive"])).summary(f)
-        cc = [x for x in fs.all_sites() if x.kind == "call" and x.is_call_to("try_tokenize_recursive")]
+        fs = terms.Engine(prog, inline=True, hooks=__import__("evalnode").Hooks([T.TOK], opaque_names=[m.fn.path])).summary(f)
+        cc = [x for x in fs.all_sites() if x.kind == "call" and isinstance(x.callee, str) and prog.resolve_local(f.crate, x.callee) is m.fn]
         good = len(cc) == 1 and cc[0].args[fi] == m.flag_terms.get((fi, val), ("lit", val)) and (ti is None or cc[0].args[ti] == m.flag_terms.get((ti, True), ("lit", True)))
         rep.check(good, rule, name, f"{f.file}:{f.line}", f"{name} tokenizes with top_level = true, parse_wild_cards = {str(val).lower()}",
                   f"{name} calls the tokenizer with {[pt(a)[:30] for a in cc[0].args[1:]] if cc else None}")
@@ -329,17 +329,18 @@ def check_whitespace(prog, rep, rule):
             problems.append(f"{ws!r} produces {[(k, T.token_kind(t)) for k, t, r in out][:2]}")
     rep.check(not problems, rule, "tokenizer/whitespace-first", where, "a whitespace character produces no token and no error", "; ".join(problems))
     # hybrid operators: whitespace is skipped before each segment of `op {var} [in %dom%] :`
+    skippers = whitespace_skippers(prog)
     for ch in ("!", "@"):
         n = 0
         for st in m.summ.all_sites():
-            if st.kind == "call" and st.is_call_to("skip_whitespaces"):
+            if st.kind == "call" and isinstance(st.callee, str) and prog.resolve_local(m.fn.crate, st.callee) in skippers:
                 ok, res = m._eval_pc(st.pc, [ch], {m.pn[fi]: ("lit", True)} if fi is not None else {})
                 if ok:
                     n += 1
         need = 4 if ch == "!" else 2
         rep.check(n >= need, rule, f"collect_var/skip-count:{ch}", where, f"{n} whitespace skips on the path of `{ch}` (before each segment)",
                   f"only {n} skip_whitespaces calls on the path of `{ch}`: whitespace before one of the segments `{{`, `in`/`:`, `%`, `:` is not accepted")
-    sk = prog.lib_fn(T.TOK + "skip_whitespaces")
+    sk = skippers[0] if skippers else None
     if sk is not None:
         ss = terms.Engine(prog, inline=False).summary(sk)
         adv = [x for x in ss.sites if x.kind == "mcall" and x.name in ("next", "next_if", "nth", "advance_by")]
@@ -358,6 +359,23 @@ def check_whitespace(prog, rep, rule):
         lits += [t for x in ss.sites for t, pol in q.conds(x.pc) for y in [t] + list(subterms(t)) if y[0] == "lit" and y[1] == " "]
         rep.check(not lits, rule, "skip_whitespaces/all-whitespace", f"{sk.file}:{sk.line}", "whitespace is recognised by is_whitespace, not by a literal blank",
                   "skip_whitespaces compares with the literal ' ': tabs and newlines inside a hybrid segment are not skipped")
+
+
+def whitespace_skippers(prog):
+    """The private helper(s) of the tokenizer module (sub-modules included) that skip whitespace: one parameter (the character
+    iterator), no result, the iterator is advanced and `is_whitespace` is consulted - found by that, not by name."""
+    out = []
+    raw = terms.Engine(prog, inline=False)
+    for f in prog.lib_fns():
+        if not f.path.startswith(T.TOK) or len(f.params) != 1 or str(f.ret) not in ("()", "None", ""):
+            continue
+        ss = raw.summary(f)
+        adv = [x for x in ss.sites if x.kind == "mcall" and x.name in ("next", "next_if", "nth", "advance_by")]
+        ws = any("is_whitespace" in str(x.callee) or (isinstance(x.term, tuple) and "is_whitespace" in pt(x.term)) or
+                 any("is_whitespace" in pt(c[1]) for c in x.pc if c[0] in ("if", "match")) for x in ss.sites)
+        if adv and ws:
+            out.append(f)
+    return out
 
 
 # ------------------------------------------------------------------------------------------------ long / short spellings (C08-R1)
